@@ -1,5 +1,5 @@
 (* Checkers of the C19 correspondence run. *)
-From V Require Import Common.Base C18.Pieces C18.Harness C19.Metafile.
+From V Require Import Common.Base C18.Pieces C18.Harness C19.Metafile C19.Json C19.JsonSpec C19.JsonProofs C19.Layout C19.Doc.
 
 (* accurateFinalByteCount on the per-input slices of a chunk:
    (prefix, nfiles, nchunks, path table, segments (owner or -1, bytes), trailer,
@@ -18,3 +18,37 @@ Definition bb_eqb (a b : bytes * bytes) : bool := zlist_eqb (fst a) (fst b) && z
 Definition outs_ok (c : list (bytes * bytes) * list (bytes * bytes)) : bool :=
   let '(rs, g) := c in list_eqb bb_eqb (list_outputs [] rs) g.
 Definition check_outs := mismatches outs_ok.
+
+(* helpers.QuoteForJSON: (asciiOnly, text, Go output).  Besides the model's
+   bytes the property's predicate is evaluated: the RFC 8259 string parser
+   reads the Go output back as the UTF-16 units of the text (whenever the
+   theorem's hypothesis holds: asciiOnly, or no invalid byte) *)
+Definition ou_eqb (a b : option (list Z * bytes)) : bool :=
+  match a, b with
+  | Some (u, r), Some (u', r') => zlist_eqb u u' && zlist_eqb r r'
+  | None, None => true
+  | _, _ => false
+  end.
+Definition quote_ok (c : bool * bytes * bytes) : bool :=
+  let '(ascii, s, g) := c in
+  zlist_eqb (quote_for_json ascii s) g
+  && (if ascii || wtf8_ok (length s) s then ou_eqb (jstring g) (Some (units s, [])) else true).
+Definition check_quote := mismatches quote_ok.
+
+(* a whole metafile of api.Build: (asciiOnly, output paths by index, inputs,
+   outputs (path, description with imports of outputs as PRef 2 index), Go text).
+   The model text goes through chunk_pre, break_joiner and substitute_out with a
+   fixed prefix, and must be the Go text byte for byte; the spec parser must
+   accept it. *)
+Definition corr_prefix : bytes := [90; 113; 88; 57; 118; 75; 50; 109; 80; 82; 69; 70; 73; 88; 48; 48].
+Definition doc_ok (c : bool * list bytes * list input * list (bytes * chunk) * bytes) : bool :=
+  let '(ascii, tab, ins, outs, g) := c in
+  let pathOf := fun (_ i : Z) => nth (Z.to_nat i) tab [] in
+  zlist_eqb (metafile_of false ascii corr_prefix 0 (Z.of_nat (length tab)) pathOf ins outs) g
+  && match parse_json g with Some _ => true | None => false end.
+Definition check_doc := mismatches doc_ok.
+
+(* generateMetadataJSON on arbitrary chunks: (minified, asciiOnly, results, Go text) *)
+Definition gen_ok (c : bool * bool * list (bytes * bytes) * bytes) : bool :=
+  let '(mini, ascii, rs, g) := c in zlist_eqb (metafile_bytes mini ascii [] rs) g.
+Definition check_gen := mismatches gen_ok.
